@@ -137,6 +137,25 @@ def fixed_cases():
     return cs
 
 
+BIG_TYPES = ["covdir", "coveralls", "coveralls+", "lcov", "ade", "files", "markdown", "cobertura"]
+
+
+def big_cases(thorough):
+    """size / boundary sets for the dense-array formats: a line number just above a power of two (one array slot per line up to
+    the last one), next to small files so that directory and root totals are affected.  HTML is left out: its page has one
+    ~700-byte row per source line (0.7 GB for 2^20 lines)."""
+    h = hx
+    small = {"lines": [[1, 1], [2, 0], [3, 4]], "branches": [[2, [True, False]]], "funcs": [[h("g"), 1, True]]}
+    cs = []
+    for top, p in [(65536 + 1, 2), (2**20, 3), (2**20 + 1, 4)] + ([(2**24 + 1, 2)] if thorough else []):
+        big = {"lines": [[1, 2], [2, 0], [200, 1], [top - 1, 0], [top, 7]] if top % 2 else [[1, 2], [2, 0], [200, 1], [top - 3, 5], [top, 0]],
+               "branches": [[top, [True, False, True]]], "funcs": [[h("f"), 1, True], [h("tail"), top - 1, False]]}
+        types = BIG_TYPES if top <= 2**16 + 1 else [t for t in BIG_TYPES if t != "coveralls+"] if top <= 2**20 + 1 else ["covdir", "coveralls"]
+        cs.append({"results": [[h("/w/src/big.c"), h("src/big.c"), big, 0], [h("/w/src/sub/s.c"), h("src/sub/s.c"), small, 0],
+                               [h("/w/lib/t.c"), h("lib/t.c"), small, 0]], "types": types, "precision": p, "branch": True, "top_line": top})
+    return cs
+
+
 # ----------------------------------------------------------------------------------------------------------------
 # truth and classes
 # ----------------------------------------------------------------------------------------------------------------
@@ -172,6 +191,8 @@ class Findings:
         self.items = []
 
     def add(self, prop, fmt, clause, detail, known=None):
+        if len(detail) > 3000:           # the big-array cases would otherwise put megabytes into a replay file
+            detail = detail[:1500] + " ...[%d characters]... " % (len(detail) - 3000) + detail[-1500:]
         self.items.append({"property": prop, "format": fmt, "clause": clause, "detail": detail, "known": known})
 
 
@@ -289,6 +310,13 @@ def covdir_path(t):
     return tuple((["/"] if p.startswith(b"/") else []) + [c.decode() for c in comps])
 
 
+def _show_arr(arr):
+    """a long dense array is shown as its length and its data slots (1-based line, value)"""
+    if len(arr) <= 300:
+        return str(arr)
+    return "<%d slots, data at %s>" % (len(arr), [(i + 1, v) for i, v in enumerate(arr) if v != -1][:60])
+
+
 def o_covdir(F, data, ts, p):
     root = D.read_covdir(data)
     files, dirs = D.covdir_files(root)
@@ -310,7 +338,7 @@ def o_covdir(F, data, ts, p):
                 a = {l: c for l, c in dec.items() if l not in big}
                 b = {l: c for l, c in t["lines"].items() if l not in big}
                 known = K_I64 if big and a == b and len(arr) == max(list(t["lines"]) + [0]) else None
-                F.add("C03", "covdir", "lines and counts (-1 = not instrumented)", "%s: expected %s got array %s" % (pth, t["lines"], arr), known)
+                F.add("C03", "covdir", "lines and counts (-1 = not instrumented)", "%s: expected %s got array %s" % (pth, t["lines"], _show_arr(arr)), known)
         # C13 file level: figures against the listed array
         tot, cov_, mis = n["linesTotal"], n["linesCovered"], n["linesMissed"]
         d_tot, d_cov = sum(1 for v in arr if v != -1), sum(1 for v in arr if v > 0)
@@ -318,7 +346,7 @@ def o_covdir(F, data, ts, p):
             known = None
             if t is not None and any(c >= I63 for c in t["lines"].values()) and (tot, cov_) == (len(t["lines"]), sum(1 for c in t["lines"].values() if c > 0)):
                 known = K_I64
-            F.add("C13", "covdir", "linesTotal/linesCovered equal the counts of the listed lines", "%s: printed %d/%d, array %s implies %d/%d" % (pth, cov_, tot, arr, d_cov, d_tot), known)
+            F.add("C13", "covdir", "linesTotal/linesCovered equal the counts of the listed lines", "%s: printed %d/%d, array %s implies %d/%d" % (pth, cov_, tot, _show_arr(arr), d_cov, d_tot), known)
         covdir_node_figs(F, pth, n, p)
     for pth, n in dirs:
         ch = list(n["children"].values())
@@ -997,3 +1025,79 @@ def correspondence(chk, cases, decs, label, limit=None):
         else:
             agree += 1
     return agree, nbad
+
+
+# ----------------------------------------------------------------------------------------------------------------
+# size / boundary result sets for the dense-array formats (oracle on the real reports; model via run_report_sparse)
+# ----------------------------------------------------------------------------------------------------------------
+def _sparse(arr, empty):
+    return (len(arr), [(i + 1, v) for i, v in enumerate(arr) if v != empty])
+
+
+def compare_model_sparse(case, dec, mv):
+    out = []
+    mfiles, mroot = mv
+    if "covdir" in dec:
+        root, files, dirs = dec["covdir"]
+        real = {"/".join(pth).encode(): n for pth, n in files}
+        for rel, st, cd, cv in mfiles:
+            n = real.get(bytes(rel))
+            if n is None:
+                out.append(("covdir", "no node for %s" % bytes(rel)))
+                continue
+            m_arr = (cd[0], [(i, _z(z)) for i, z in cd[1]])
+            if _sparse(n["coverage"], -1) != m_arr or (n["linesTotal"], n["linesCovered"], n["linesMissed"]) != tuple(st):
+                r = _sparse(n["coverage"], -1)
+                out.append(("covdir", "%s: real length %d data %s stats %s, model length %d data %s stats %s" % (
+                    bytes(rel), r[0], r[1][:20], (n["linesTotal"], n["linesCovered"], n["linesMissed"]), m_arr[0], m_arr[1][:20], tuple(st))))
+        if (root["linesTotal"], root["linesCovered"], root["linesMissed"]) != tuple(mroot):
+            out.append(("covdir", "root totals real %s model %s" % ((root["linesTotal"], root["linesCovered"], root["linesMissed"]), tuple(mroot))))
+    for ty in ("coveralls", "coveralls+"):
+        if ty not in dec:
+            continue
+        real = {f["name"]: f["raw_cov"] for f in dec[ty]}
+        for rel, st, cd, cv in mfiles:
+            arr = real.get(bytes(rel))
+            m_arr = (cv[0], [(i, _opt(o)) for i, o in cv[1]])
+            if arr is None or _sparse(arr, None) != m_arr:
+                r = _sparse(arr or [], None)
+                out.append((ty, "%s: real length %d data %s, model length %d data %s" % (bytes(rel), r[0], r[1][:20], m_arr[0], m_arr[1][:20])))
+    return out
+
+
+def big_stream(chk, prop, thorough):
+    """a line number just above 2^16 / at 2^20 / just above 2^20 (thorough: 2^24): the dense arrays of covdir and coveralls(+), and the
+    sparse formats next to them; oracle on the real reports, model through line_array_n with the arrays printed summarised"""
+    cases = big_cases(thorough)
+    impl, decs, stats = run_cases(chk, cases, prop, "big")
+    idx = [i for i, d in enumerate(decs) if d is not None and (thorough or cases[i]["top_line"] != 2**20)]
+    exprs = [vlib.Raw(coq_case(cases[i]).replace("run_report ", "run_report_sparse ", 1)) for i in idx]
+    model = vlib.run_model(chk.pid, "Run.ShowReport", exprs, shard_size=2, timeout=1500)
+    agree = bad = 0
+    for i, mv in zip(idx, model):
+        chk.count()
+        if isinstance(mv, tuple) and mv and mv[0] == "@@ERROR":
+            dis = [("model", mv[1][-800:])]
+        else:
+            try:
+                dis = compare_model_sparse(cases[i], decs[i], mv)
+            except Exception:
+                import traceback
+                dis = [("driver", traceback.format_exc()[-800:])]
+        if dis:
+            bad += 1
+            chk.violation({"kind": "correspondence", "engine": "report", "case": cases[i], "disagreements": [list(d) for d in dis[:5]],
+                           "theorems_at_stake": "line_array / cd_file_stats / cd_set_stats of Model/Reports.v, Model/Stats.v no longer describe the writers for long arrays"},
+                          has_input=False, tag="big-corr")
+        else:
+            agree += 1
+        chk.nontrivial(["big", cases[i]["top_line"]])
+    chk.extra["size_boundary_sets"] = {
+        "top_lines": [c["top_line"] for c in cases], "types": {str(c["top_line"]): c["types"] for c in cases},
+        "oracle": "all sets, every listed type (C03 exact lines, C13 totals and rates)",
+        "model": "sets %s through run_report_sparse (line_array_n = line_array by C03_line_array_n; arrays compared as length + data slots; file stats and root totals exact): %d agree, %d disagree"
+                 % ([cases[i]["top_line"] for i in idx], agree, bad),
+        "not_covered": "html (one ~700-byte row per source line: 0.7 GB for 2^20 lines); the full run_report documents for these sets (printing 2^16+ slots does not scale; "
+                       "the tree / percent / other formats of the model are exercised by the ordinary sets); in the quick tier the 2^20 set is judged by the oracle only",
+        "known_class_findings": stats["findings_in_known_classes"]}
+    return agree, bad
